@@ -17,6 +17,13 @@ func registerMisc(vm *VM) {
 	I["encoding/json.Unmarshal"] = func(vm *VM, _ *frame, a []Value) Value {
 		blob, ok := a[0].(*JSONBlob)
 		if !ok {
+			if sb, isSB := a[0].(*SymBytes); isSB {
+				if o, isO := sb.S.(*Opaque); isO && o.Blob != nil {
+					blob, ok = o.Blob, true
+				}
+			}
+		}
+		if !ok {
 			vmErr("json.Unmarshal of bytes that do not come from json.Marshal (%T)", a[0])
 		}
 		target, ok := a[1].(Iface)
